@@ -363,7 +363,23 @@ pub fn worker_main(check: &dyn Check, tier: Tier, shard: u64, nshards: u64, skip
 	let progress = check.track_progress();
 	let limit = check.case_timeout_ms(tier);
 	let mut idx = shard;
+	// resume from the checkpoint of a previous incarnation of this shard (it hung or died in a later case)
+	let ckpt = format!("{}.ckpt", resfile);
+	if let Ok(bytes) = std::fs::read(&ckpt) {
+		if bytes.len() >= 8 {
+			let next = u64::from_le_bytes(bytes[..8].try_into().unwrap());
+			ctx = de_ctx(&bytes[8..]);
+			idx = next;
+		}
+	}
+	let mut last_ckpt = Instant::now();
 	while idx < total {
+		if last_ckpt.elapsed() > Duration::from_millis(1500) {
+			let mut b = idx.to_le_bytes().to_vec();
+			b.extend(ser_ctx(&ctx));
+			let _ = std::fs::write(format!("{}.tmp", ckpt), &b).and_then(|_| std::fs::rename(format!("{}.tmp", ckpt), &ckpt));
+			last_ckpt = Instant::now();
+		}
 		if !skip.contains(&idx) {
 			if progress {
 				let _ = std::fs::write(format!("{}.cur", resfile), idx.to_string());
@@ -428,7 +444,7 @@ pub fn parent_main(check: &dyn Check, tier: Tier) -> i32 {
 	let mut merged = Ctx::default();
 	let mut machinery_errors: Vec<String> = vec![];
 	let mut incomplete: Vec<String> = vec![];
-	const MAX_RESTARTS: u32 = 4;
+	const MAX_RESTARTS: u32 = 12;
 
 	struct Shard {
 		shard: u64,
@@ -439,6 +455,9 @@ pub fn parent_main(check: &dyn Check, tier: Tier) -> i32 {
 	}
 	let spawn = |sh: &mut Shard| {
 		let _ = std::fs::remove_file(&sh.resfile);
+		if sh.restarts == 0 {
+			let _ = std::fs::remove_file(format!("{}.ckpt", sh.resfile));
+		}
 		let _ = std::fs::remove_file(format!("{}.hang", sh.resfile));
 		let _ = std::fs::remove_file(format!("{}.cur", sh.resfile));
 		let skip = sh
@@ -489,6 +508,7 @@ pub fn parent_main(check: &dyn Check, tier: Tier) -> i32 {
 					Err(e) => machinery_errors.push(format!("shard {}: no result file: {}", sh.shard, e)),
 				}
 				let _ = std::fs::remove_file(&sh.resfile);
+				let _ = std::fs::remove_file(format!("{}.ckpt", sh.resfile));
 				let _ = std::fs::remove_file(format!("{}.cur", sh.resfile));
 				pending -= 1;
 				continue;
